@@ -823,6 +823,24 @@ def memo_tables(ctx, fn, ps):
             if module_level:
                 mutable = [f_ for f_ in mutable if not _determined(('attr', V('self'), f_), katoms)]        # (a field whose current value is part of the key cannot go stale)
             if not missing:
+                # tuple(d) / sorted(d) / frozenset(d) of a MAPPING holds its keys only: an entry computed from d.items() / d.values() / d[k] then depends on values
+                # the key does not record
+                def _keys_only(K_):
+                    out_ = set()
+                    for s_ in T.subterms(K_):
+                        if s_[0] == 'call' and s_[1][0] == 'ext' and s_[1][1] in ('TUPLE', 'LIST', 'SORTED', 'FROZENSET', 'SET') and len(s_[2]) == 1 and s_[2][0][0] == 'var' \
+                                and s_[2][0][1] in params:
+                            out_.add(s_[2][0])
+                    return out_
+                ko_ = _keys_only(Kw)
+                whole_ = {s_ for s_ in T.subterms(T.replace(Kw, lambda z: T.ZERO if (z[0] == 'call' and z[1][0] == 'ext' and z[1][1] in ('TUPLE', 'LIST', 'SORTED', 'FROZENSET', 'SET')
+                                                                                       and len(z[2]) == 1 and z[2][0] in ko_) else None)) if s_ in ko_}
+                as_map_ = {s_[2][0] for s_ in T.subterms(wv_) if s_[0] == 'call' and s_[1] in (('meth', 'items'), ('meth', 'values')) and len(s_[2]) == 1 and s_[2][0] in ko_}
+                as_map_ |= {s_[1] for s_ in T.subterms(wv_) if s_[0] == 'sub' and s_[1] in ko_}
+                lost_ = sorted(fmt(v_) for v_ in (ko_ - whole_) & as_map_)
+                if lost_:
+                    missing = ['%s.values() (the key holds the keys of the mapping only)' % v_ for v_ in lost_]
+            if not missing:
                 # the key mentions everything the entry reads - but does it CARRY it?  An argument that enters the key only through a many-to-one computation
                 # (bisect(self._instants, dt), dt.floor('D'), x // n) leaves many arguments under one key: equal entries for all of them is an argument about values
                 inj_ = _injective_atoms(Kw, params)
